@@ -10,6 +10,7 @@ from common import cnat, cZ, cbool, clist, cpair, copt
 
 PID = 'C08'
 PROP_V = 'Props/C08.v'
+CORR_V = ('Corr/CorrC08.v',)
 HEADER = 'Require Import V.Corr.CorrC08.\n'
 
 
